@@ -9,6 +9,35 @@ import sys
 import traceback
 
 
+def set_library_logging(debug):
+    """DEBUG on / off for every fast_ticc logger (records go to a NullHandler)."""
+    import logging
+    lg = logging.getLogger('fast_ticc')
+    if not any(isinstance(h, logging.NullHandler) for h in lg.handlers):
+        lg.addHandler(logging.NullHandler())
+    lg.propagate = False
+    lg.setLevel(logging.DEBUG if debug else logging.WARNING)
+
+
+def _validate(mod, witnesses):
+    """Witnesses are replayed under the log level of their path."""
+    total = None
+    for dbg in (False, True):
+        group = [x for x in witnesses if bool((x.get('notes') or {}).get('debug_logging')) == dbg]
+        if not group:
+            continue
+        set_library_logging(dbg)
+        r = mod.validate(group)
+        if total is None:
+            total = r
+        else:
+            for k in ('checked', 'agree', 'skipped'):
+                total[k] = total.get(k, 0) + r.get(k, 0)
+            total['disagree'] = (total.get('disagree') or []) + (r.get('disagree') or [])
+    set_library_logging(False)
+    return total if total is not None else {'checked': 0, 'agree': 0, 'skipped': 0, 'disagree': []}
+
+
 def main():
     path = sys.argv[1]
     with open(path) as fh:
@@ -17,9 +46,10 @@ def main():
     try:
         mod = importlib.import_module('replay.' + pid.lower())
         if w.get('mode') == 'validate':
-            r = mod.validate(w['witnesses'])
+            r = _validate(mod, w['witnesses'])
             r.setdefault('ok', True)
         else:
+            set_library_logging(bool((w.get('notes') or {}).get('debug_logging')))
             r = mod.replay(w)
             r.setdefault('ok', True)
         r['property'] = pid
